@@ -17,10 +17,10 @@ if ! git -C $wt apply $sd/patch.diff 2>>$wt.log; then res "PATCH-DOES-NOT-APPLY"
 tests=$(cd $wt && go test -vet=off -count=1 ./... 2>&1 | grep -E "^(FAIL|ok|---)" | grep -v "^ok" | grep -v "TestIntegrationWatcherWatch\|internal/netstate" | tr '\n' ' ')
 res "existing-tests-with-change: ${tests:-all pass (netstate integration test excluded)}"
 cp $sd/demo_test.go $wt/$pkg/zz_seed_demo_test.go
-with=$(cd $wt && go test -vet=off -count=1 -run 'TestSeed' ./$pkg 2>&1 | tail -1)
+with=$(cd $wt && go test -vet=off -count=1 -run 'Seed' ./$pkg 2>&1 | tail -1)
 res "demo-with-change: $with"
 git -C $wt apply -R $sd/patch.diff
-without=$(cd $wt && go test -vet=off -count=1 -run 'TestSeed' ./$pkg 2>&1 | tail -1)
+without=$(cd $wt && go test -vet=off -count=1 -run 'Seed' ./$pkg 2>&1 | tail -1)
 res "demo-without-change: $without"
 git -C /repo worktree remove --force $wt
 # our check
